@@ -151,7 +151,11 @@ func (r *Run) freshWithReads(swap map[string]map[string]client.Object) (NF, []st
 		st := r.kube.ks(kind).store
 		for key, o := range objs {
 			saved[kind][key] = st[key]
-			st[key] = o
+			if o == nil {
+				delete(st, key) // hidden in this world
+			} else {
+				st[key] = o
+			}
 		}
 	}
 	r.kube.readTrace = []string{}
@@ -161,7 +165,11 @@ func (r *Run) freshWithReads(swap map[string]map[string]client.Object) (NF, []st
 	for kind, objs := range saved {
 		st := r.kube.ks(kind).store
 		for key, o := range objs {
-			st[key] = o
+			if o == nil {
+				delete(st, key)
+			} else {
+				st[key] = o
+			}
 		}
 	}
 	set := map[string]bool{}
@@ -247,5 +255,76 @@ func (r *Run) checkCrossNamespace() {
 		d := DiffNF(nfD, nfT, "long-running", "foreign-objects-absent")
 		r.violate(&Violation{Property: "C09", Oracle: "long-running", Class: "long-running-uses-foreign-object:" + diffClass2(d),
 			Witness: fmt.Sprintf("%d denied cross-namespace reference(s); the long-running controller writes what a controller with every cross-namespace key open writes: %s", n, d)})
+	}
+}
+
+// checkNamespaceProjection: with every cross-namespace class closed, what is
+// configured for the resources of one namespace does not depend on what lives
+// in the others. Every ingress has hosts of its own in this profile, so the
+// backends of namespace X (sections backend X_*) are a function of X alone:
+// they are compared between the world as it is and the world without any
+// Ingress, Service, Endpoints or Secret of the other namespaces. This also
+// covers uses that carry no written reference at all (oauth looks its
+// authentication service up by path).
+func (r *Run) checkNamespaceProjection() {
+	for _, class := range []string{"crt", "ca", "passwd", "services"} {
+		if !r.c09Denied(class) {
+			return
+		}
+	}
+	if r.diskConfig() == nil {
+		return
+	}
+	r.probe("model_compared")
+	full, _ := r.freshWithReads(nil)
+	if full == nil {
+		return
+	}
+	for _, ns := range []string{"a", "b"} {
+		hide := map[string]map[string]client.Object{}
+		n := 0
+		for _, kind := range []string{KIngress, KService, KEndpoints, KSecret, KPod} {
+			hide[kind] = map[string]client.Object{}
+			for key, o := range r.kube.ks(kind).store {
+				if o.GetNamespace() != ns && o.GetNamespace() != podNamespace {
+					hide[kind][key] = nil
+					n++
+				}
+			}
+		}
+		if n == 0 {
+			continue
+		}
+		alone, _ := r.freshWithReads(hide)
+		if alone == nil {
+			continue
+		}
+		r.probe("c09_projections_compared")
+		for id, lines := range full {
+			if !strings.HasPrefix(id, "backend "+ns+"_") {
+				continue
+			}
+			other, ok := alone[id]
+			if !ok {
+				r.violate(&Violation{Property: "C09", Oracle: "projection", Class: "namespace-config-depends-on-foreign-objects:section",
+					Witness: fmt.Sprintf("section %q exists only while the objects of the other namespaces exist", id)})
+				return
+			}
+			if strings.Join(lines, "\n") != strings.Join(other, "\n") {
+				d := DiffNF(NF{id: lines}, NF{id: other}, "with-other-namespaces", "namespace-alone")
+				r.violate(&Violation{Property: "C09", Oracle: "projection", Class: "namespace-config-depends-on-foreign-objects:content",
+					Witness: d})
+				return
+			}
+		}
+		for id := range alone {
+			if strings.HasPrefix(id, "backend "+ns+"_") {
+				if _, ok := full[id]; !ok {
+					r.violate(&Violation{Property: "C09", Oracle: "projection", Class: "namespace-config-depends-on-foreign-objects:section",
+						Witness: fmt.Sprintf("section %q disappears when the objects of the other namespaces exist", id)})
+					return
+				}
+			}
+		}
 	}
 }
